@@ -159,13 +159,19 @@ func H_C02_case() {
 // literals; the key set of each output row is exactly the select list.
 func H_C02_keys() {
 	n := verif.Choose("rows", maxRows(2, 3)+1)
-	form := verif.Choose("form", 6)
+	form := verif.Choose("form", 7)
 	rows := make([]Map, n)
 	arr := make([]any, n)
 	for i := range rows {
 		x, y := verif.F64("a"), verif.F64("k")
 		verif.Assume(verif.All(x == x, y == y))
 		rows[i] = Map{"a": x, "o": Map{"k": y}, "z": nil, "s": verif.Str("s", 2, "")}
+		if form == 6 {
+			// flat keys spelled like paths and selectors of the query
+			rows[i]["o.k"] = float64(99)
+			rows[i]["q.r"] = float64(77)
+			rows[i]["a + 1"] = float64(55)
+		}
 		arr[i] = rows[i]
 	}
 	doc := Map{"t": arr}
@@ -184,6 +190,9 @@ func H_C02_keys() {
 		sql = "SELECT a AS x, a AS y, o.k FROM t"
 	case 5:
 		sql = verif.SQL("SELECT * FROM t WHERE a > ? OR a <= ?", c, c)
+	case 6:
+		// o.k descends into o; q.r has no object q: NULL; 'o.k' (quoted) is the flat key
+		sql = "SELECT o.k AS v, q.r AS w, o.k + 1 AS p, `'o.k'` AS f, a + 1 AS e FROM t"
 	}
 	got, ok := runQuery(doc, sql)
 	if !ok {
@@ -206,6 +215,8 @@ func H_C02_keys() {
 			}
 		case 4:
 			want = append(want, Map{"x": a, "y": a, "k": k})
+		case 6:
+			want = append(want, Map{"v": k, "w": nil, "p": f64of(k) + 1, "f": float64(99), "e": a + 1})
 		}
 	}
 	verif.Assert(verif.Eq(got, want), "projection")
